@@ -206,6 +206,12 @@ def run(ctx, rep):
     ws = P.fn('io_writer_step')
     rep.analysed(ws)
     inc = [i for i in ws.all_insts() if i.op == 'store' and 'writer_error[' in ws.expr(i.ops[1])]
+    if not inc:
+        # the accounting may live in a helper called from io_writer_step (one level)
+        for c_ in ws.calls():
+            h_ = P.functions.get(c_.callee_full) if c_.callee_full else None
+            if h_ is not None and not h_.decl:
+                inc += [i for i in h_.all_insts() if i.op == 'store' and 'writer_error[' in h_.expr(i.ops[1])]
     rep.check(bool(inc), 'R-C08-3', 'thread mode: io_writer_step accumulates the state into io->writer_error', ws.file, '%d stores' % len(inc), function='io_writer_step', construct='accumulate')
     m = P.fn('io_parity_write_mono')
     rep.analysed(m)
